@@ -8,6 +8,7 @@
 //! exit 2: harness error.
 
 mod c05;
+mod c08;
 mod c09;
 mod c19;
 mod c20;
@@ -21,6 +22,10 @@ macro_rules! with_scenario {
         match $prop {
             "C05" => {
                 type $S = c05::C05;
+                $body
+            }
+            "C08" => {
+                type $S = c08::C08;
                 $body
             }
             "C09" => {
@@ -75,6 +80,16 @@ fn main() {
     verif_rt::process::install_dispatcher();
     let code = match args[1].as_str() {
         "--worker" => worker(&args[2..]),
+        "--report" => {
+            // --report <prop> <tier> <seed> <index>
+            if args.len() < 6 {
+                usage();
+            }
+            let tier = if args[3] == "thorough" { Tier::Thorough } else { Tier::Quick };
+            let seed: u64 = args[4].parse().unwrap();
+            let idx: u64 = args[5].parse().unwrap();
+            with_scenario!(args[2].as_str(), S => reporter_main::<S>(tier, seed, idx), usage())
+        }
         "replay" => {
             if args.len() < 3 {
                 usage();
@@ -93,6 +108,7 @@ fn main() {
             };
             match prop {
                 "C05" => c05::check(tier),
+                "C08" => c08::check(tier),
                 "C09" => c09::check(tier),
                 "C19" => c19::check(tier),
                 "C20" => c20::check(tier),
@@ -145,7 +161,7 @@ fn selftest_determinism(runs: u64) -> i32 {
     let seed = base_seed();
     let mut lines = vec![];
     let only = std::env::var("VERIF_ONLY").ok();
-    for prop in ["C05", "C09", "C19", "C20"] {
+    for prop in ["C05", "C08", "C09", "C19", "C20"] {
         if only.as_deref().map(|o| o != prop).unwrap_or(false) {
             continue;
         }
